@@ -164,6 +164,16 @@ Proof.
 Qed.
 Print Assumptions C17_present.
 
+(* Declared names, bounded scope (the bound is in the statement): for every table of at most three
+   environments named by spellings from Proofs.spellings that do not collide after lower-casing,
+   FlowIR.from_dict files each environment under the lower-case form of its declared name, every held
+   name is lower-case and none is lost.  (Unbounded: lower_names_id, dict_tab_lower in Proofs.v;
+   colliding spellings: correspondence only.) *)
+Theorem C17_declared_spelling_small : forall names,
+  In names (lists_upto3 spellings) -> distinct_lower names = true -> found_lower names = true.
+Proof. exact declared_spelling_small. Qed.
+Print Assumptions C17_declared_spelling_small.
+
 (* non-vacuity: platform p, environment requested as "FOO", declared "Foo" on default and "foo" on p;
    Template/expandvars instantiated by Model.subst *)
 Definition ex_cfg : cfg := {|
